@@ -29,20 +29,35 @@ func round6(c *Ctx) {
 	case "C07", "C10":
 		r6AsJSON(c)
 		r6SelfMarshallingCarriers(c)
+		if c.Prop == "C10" {
+			r8ObjectsOfNumbers(c)
+			r8NullEntriesAcrossCarriers(c)
+			r8ObjectsKeyedByAny(c)
+		}
 	case "C05":
 		r6NumbersKeptAsText(c)
 		r6HugeUnsigned(c)
+		r8SmallFloats(c)
+	case "C04":
+		r8ObjectsOfNumbers(c)
+	case "C18":
+		r8NeedlesEndingInAQuote(c)
 	case "C17":
 		r6KeysThatFoldTogetherAcrossElements(c)
 	case "C19":
 		r6NilThenSetStructPointers(c)
 		r6AllZeroStructs(c)
 		r6PaddedZeroNumerals(c)
+		r8ObjectsKeyedByAny(c)
 	case "C02", "C03":
 		r6NullElementsUnderFilters(c)
+		r8RunsOfFilters(c)
+		r8ObjectsOfObjectsUnderFilters(c)
+		r8FieldsThatFoldTogetherAsOperands(c)
 	case "C11":
 		r6AsJSON(c)
 		r6ObjectValuedArguments(c)
+		r8FreshParsesOfEscapedBackslashes(c)
 	}
 }
 
@@ -358,5 +373,208 @@ func r6SelfMarshallingCarriers(c *Ctx) {
 	for _, q := range []string{"$.o.k", "$.o.n.Add(1)", `$.o.RemoveKeysByPrefix("k")`, `$.o.RemoveKeysBySuffix("n").k`, `$.o.RemoveKeysByRegex("^K")`, "$.o.Sum()", "$.o.IsEmpty()", "$.o.IsNull()", "$.rows.n.Sum()",
 		`$.rows.First().RemoveKeysByPrefix("n")`, `$.rows.Select("$.k")`, "$.rows[@.n.Greater(2)].k", "$.p.k", `$.p.RemoveKeysByPrefix("k").n`, "$.rows.Count()", "$.o.Maximum()", `$.rows.Last().RemoveKeysByRegex("n").k`} {
 		c.sameAcross(q, []string{"map", "struct", "self-marshalling-struct"}, []*TV{doc(mp), doc(st), doc(tvMarshObj)}, "round6/self-marshalling-carriers")
+	}
+}
+
+// ---------- round 8 ----------
+
+// an object of numbers under the aggregates, carried by a map of any, by maps whose VALUE type is a number kind (with a zero among the
+// values) or a pointer to one, and by a struct: one answer
+func r8ObjectsOfNumbers(c *Ctx) {
+	sets := [][]float64{{0, 4, 6}, {-2.5, 0, -0.1}, {1.5, 2, 4}, {0, 0, 7}, {0}, {3}}
+	for _, vs := range sets {
+		mk := func(wrap func(f float64) *TV, typed bool) *TV {
+			var kvs [][2]any
+			for i, v := range vs {
+				kvs = append(kvs, kv(string(rune('a'+i)), wrap(v)))
+			}
+			if typed {
+				return tvTypedMap("str", kvs)
+			}
+			return tvMap("str", kvs)
+		}
+		f64 := func(f float64) *TV { return tvF64(f) }
+		whole := true
+		for _, v := range vs {
+			if v != math.Trunc(v) {
+				whole = false
+			}
+		}
+		names := []string{"map-of-any", "map-of-float64", "map-of-pointers-to-float64", "map-of-any-holding-pointers", "named-key-map-of-float64"}
+		tvs := []*TV{mk(f64, false), mk(f64, true), mk(func(f float64) *TV { return tvPtr(tvF64(f)) }, true), mk(func(f float64) *TV { return tvPtr(tvF64(f)) }, false),
+			func() *TV { t := mk(f64, true); t.KK = "named"; return t }()}
+		if whole {
+			names = append(names, "map-of-int", "map-of-uint8-or-int64")
+			tvs = append(tvs, mk(func(f float64) *TV { return tvInt("int", fmt.Sprint(int64(f))) }, true), mk(func(f float64) *TV { return tvInt("int64", fmt.Sprint(int64(f))) }, true))
+		}
+		var docs []*TV
+		for _, t := range tvs {
+			docs = append(docs, tvMap("str", [][2]any{kv("m", t), kv("one", tvF64(1))}))
+		}
+		for _, q := range []string{"$.m.Sum()", "$.m.Average()", "$.m.Minimum()", "$.m.Maximum()", "$.m.Sum(10)", "$.m.Minimum(1)", "$.m.Maximum(-1)", "$.m.Average($.one)", "$.m.Maximum().Greater(3)", "$.m.Minimum().Equal(0)"} {
+			c.sameAcross(q, names, docs, "round8/objects-of-numbers")
+		}
+	}
+}
+
+// lists with null entries under filters, the null carried as JSON null, as a nil pointer in a typed list, as a nil map in a list of maps
+func r8NullEntriesAcrossCarriers(c *Ctx) {
+	row := func(id float64, ok bool) *TV {
+		return tvMap("str", [][2]any{kv("id", tvF64(id)), kv("ok", tvBool(ok))})
+	}
+	rowS := func(id float64, ok bool) *TV { return tvStruct([][3]any{{"Id", 1, tvF64(id)}, {"Ok", 1, tvBool(ok)}}) }
+	nilMap := &TV{T: "map", KK: "str", Nil: 1, V: [][2]any{}}
+	names := []string{"any-list-with-null", "list-of-maps-with-nil-map", "list-of-pointers-with-nil-pointer", "any-list-with-nil-pointer"}
+	docs := []*TV{
+		tvMap("str", [][2]any{kv("rows", tvSlice(1, tvNil(), row(1, true), row(2, false)))}),
+		tvMap("str", [][2]any{kv("rows", tvSlice(0, nilMap, row(1, true), row(2, false)))}),
+		tvMap("str", [][2]any{kv("rows", tvSlice(0, tvNilPtr(rowS(0, false)), tvPtr(rowS(1, true)), tvPtr(rowS(2, false))))}),
+		tvMap("str", [][2]any{kv("rows", tvSlice(1, tvNilPtr(rowS(0, false)), tvPtr(rowS(1, true)), row(2, false)))}),
+	}
+	for _, q := range []string{"$.rows[@.ok].Count()", "$.rows[@.id.Equal(1)].Count()", "$.rows[@.IsNull()].Count()", "$.rows[@.ok?.IsNull()].Count()", "$.rows[@.id?.Greater(1)].Count()", "$.rows[OR,@.IsNull(),@.ok?].Count()",
+		"$.rows[@.IsNotNull()].Count()", "$.rows.Count()", "$.rows[@.ok].id"} {
+		c.sameAcross(q, names, docs, "round8/null-entries-across-carriers")
+	}
+}
+
+// a document whose objects below the root are maps keyed by `any` (what yaml.v2 hands out), next to the same document in maps keyed
+// by strings: one answer
+func r8ObjectsKeyedByAny(c *Ctx) {
+	mk := func(kk string) *TV {
+		inner := tvMap(kk, [][2]any{kv("c", tvStr("v")), kv("null", tvNil()), kv("zero", tvF64(0)), kv("empty", tvStr(""))})
+		return tvMap("str", [][2]any{kv("a", tvMap(kk, [][2]any{kv("b", inner), kv("list", tvSlice(1, inner, tvMap(kk, [][2]any{kv("c", tvNil())})))})), kv("top", tvStr("t"))})
+	}
+	preds := []string{"IsNull()", "IsNotNull()", "IsEmpty()", "IsNotEmpty()", "IsNullOrEmpty()", "IsNotNullOrEmpty()"}
+	for _, path := range []string{"$.a?.b?.c?", "$.a.b.c", "$.a.b.null", "$.a.b.zero", "$.a.b.empty", "$.a?.b?.nosuch?", "$.a.b.nosuch", "$.a.list.c", "$.a.B.C", "$.a.list.First().c"} {
+		for _, pr := range preds {
+			c.sameAcross(path+"."+pr, []string{"string-keyed", "any-keyed"}, []*TV{mk("str"), mk("iface")}, "round8/objects-keyed-by-any")
+		}
+		c.sameAcross(path, []string{"string-keyed", "any-keyed"}, []*TV{mk("str"), mk("iface")}, "round8/objects-keyed-by-any")
+	}
+	c.sameAcross("$.a.list[@.c?.IsNull()].Count()", []string{"string-keyed", "any-keyed"}, []*TV{mk("str"), mk("iface")}, "round8/objects-keyed-by-any")
+}
+
+// two filters in a row (`coll[p][q]`) followed by First / Any / Last / Count, where the first element that meets p fails q and a later
+// one meets both; and the same run inside a condition
+func r8RunsOfFilters(c *Ctx) {
+	it := func(ok bool, n float64) *TV { return tvMap("str", [][2]any{kv("ok", tvBool(ok)), kv("n", tvF64(n))}) }
+	grp := func(id string, items ...*TV) *TV {
+		return tvMap("str", [][2]any{kv("id", tvStr(id)), kv("items", tvSlice(1, items...))})
+	}
+	docs := []*TV{
+		tvMap("str", [][2]any{kv("rows", tvSlice(1, it(true, 1), it(false, 9), it(true, 8), it(true, 2))), kv("groups", tvSlice(1, grp("g1", it(true, 1), it(true, 9)), grp("g2", it(true, 1), it(false, 9)), grp("g3", it(true, 7))))}),
+		tvMap("str", [][2]any{kv("rows", tvSlice(1, it(false, 9), it(true, 9))), kv("groups", tvSlice(1, grp("g1", it(false, 9))))}),
+		tvMap("str", [][2]any{kv("rows", tvSlice(1, it(true, 1))), kv("groups", tvSlice(1))}),
+	}
+	for _, d := range docs {
+		for _, tail := range []string{".First()", ".Any()", ".Last()", ".Count()", "", ".First().n", ".n.Sum()"} {
+			for _, body := range []string{"$.rows[@.ok][@.n.Greater(5)]", "$.rows[AND,@.ok,@.n.Greater(5)]", "$.rows[@.n.Greater(5)][@.ok]", "$.rows[@.ok][@.n.Greater(5)][@.n.Less(9)]", "$.rows[@.ok][@.ok][@.n.Greater(5)]"} {
+				c.Do(Case{Q: body + tail, D: d, Cls: "round8/runs-of-filters", InDomain: true})
+			}
+		}
+		for _, q := range []string{"$.groups[@.items[@.ok][@.n.Greater(5)].Any()].id", "$.groups[@.items[AND,@.ok,@.n.Greater(5)].Any()].id", "$.groups[@.items[@.ok][@.n.Greater(5)].Count().Greater(0)].Count()"} {
+			c.Do(Case{Q: q, D: d, Cls: "round8/runs-of-filters", InDomain: true})
+		}
+	}
+}
+
+// a single object ALL of whose fields are objects, under a filter: it is one object (kept or null), not a collection of its fields
+func r8ObjectsOfObjectsUnderFilters(c *Ctx) {
+	addr := func(country string, n float64) *TV {
+		return tvMap("str", [][2]any{kv("country", tvStr(country)), kv("n", tvF64(n))})
+	}
+	addrS := func(country string, n float64) *TV {
+		return tvStruct([][3]any{{"Country", 1, tvStr(country)}, {"N", 1, tvF64(n)}})
+	}
+	docs := []*TV{
+		tvMap("str", [][2]any{kv("addresses", tvMap("str", [][2]any{kv("billing", addr("AU", 1)), kv("shipping", addr("NZ", 2))})),
+			kv("customers", tvSlice(1, tvMap("str", [][2]any{kv("id", tvF64(1)), kv("contacts", tvMap("str", [][2]any{kv("primary", tvMap("str", [][2]any{kv("active", tvBool(true))}))}))}),
+				tvMap("str", [][2]any{kv("id", tvF64(2)), kv("contacts", tvMap("str", [][2]any{kv("primary", tvMap("str", [][2]any{kv("active", tvBool(false))}))}))})))}),
+		tvMap("str", [][2]any{kv("addresses", tvTypedMap("str", [][2]any{kv("billing", addrS("AU", 1)), kv("shipping", addrS("NZ", 2))})), kv("customers", tvSlice(1))}),
+		tvMap("str", [][2]any{kv("addresses", tvStruct([][3]any{{"Billing", 1, addrS("AU", 1)}, {"Shipping", 1, addrS("NZ", 2)}})), kv("customers", tvSlice(1))}),
+	}
+	for _, d := range docs {
+		for _, q := range []string{`$.addresses[@.billing.country.Equal("AU")]`, `$.addresses[@.billing.country.Equal("NZ")]`, `$.addresses[@.billing?.country?.Equal("AU")]`, `$.addresses[@.shipping.n.Greater(1)].billing.country`,
+			`$.addresses[@.billing.country.Equal("AU")].IsNotNull()`, `$.addresses[@.billing.country.Equal("NZ")].IsNull()`, "$.customers[@.contacts[@.primary?.active?.Equal(true)].IsNotNull()].id",
+			"$.customers[@.contacts[@.primary?.active?.Equal(true)].IsNull()].id", `$.addresses[OR,@.billing.n.Equal(1),@.shipping.n.Equal(1)].shipping.country`} {
+			c.Do(Case{Q: q, D: d, Cls: "round8/objects-of-objects-under-filters", InDomain: true})
+		}
+	}
+}
+
+// struct carriers with two exported fields that differ in letter case only, as operands of groups with one, two and three operands,
+// at the top, nested, in filters and as arguments: the group is the fold of what each operand answers on its own
+func r8FieldsThatFoldTogetherAsOperands(c *Ctx) {
+	rec := func(a, b, live bool) *TV {
+		return tvStruct([][3]any{{"Ok", 1, tvBool(a)}, {"OK", 1, tvBool(b)}, {"Live", 1, tvBool(live)}})
+	}
+	for _, v := range [][3]bool{{false, true, false}, {true, false, true}, {false, true, true}, {true, true, false}} {
+		d := tvStruct([][3]any{{"Ok", 1, tvBool(v[0])}, {"OK", 1, tvBool(v[1])}, {"Live", 1, tvBool(v[2])}, {"Rows", 1, tvSlice(0, rec(v[0], v[1], v[2]), rec(v[1], v[0], v[2]), rec(v[0], v[1], !v[2]))}})
+		for _, q := range []string{"{AND,$.OK}", "{AND,$.OK,$.Live}", "{OR,$.OK,$.Live}", "{AND,$.OK,$.OK}", "{OR,$.Ok,$.Live}", "{AND,{OR,$.OK,$.Live},$.Live}", "$.Rows[AND,@.OK,@.Live].Count()", "$.Rows[@.OK].Count()",
+			"$.Rows[OR,@.OK,@.Live].Count()", "$.Live.Equal({AND,$.OK,$.Live})", "$.Rows[{AND,@.OK,@.Live}].Count()", "$.OK", "$.Ok", "$.ok"} {
+			c.Do(Case{Q: q, D: d, Cls: "round8/fields-that-fold-together-as-operands", InDomain: true})
+		}
+	}
+}
+
+// small numbers held in float64 (their digits reach past the fifteenth decimal place) against the same and adjacent numbers held as
+// decimals, as text, as literals and as other floats
+func r8SmallFloats(c *Ctx) {
+	vals := []string{"2.5e-16", "1e-17", "0.00100000000000001", "0.00100000000000002", "0", "2.5e-20", "-2.5e-16", "1.5e-15"}
+	for _, as := range vals {
+		a := c04Parse(as)
+		atv := c04Carry(a, "f64")
+		if atv == nil {
+			continue
+		}
+		for _, bs := range vals {
+			b := c04Parse(bs)
+			bvs := []c05Var{{name: "literal:scientific", tv: tvNil(), arg: bs}}
+			for _, bk := range []string{"dec", "f64"} {
+				if t := c04Carry(b, bk); t != nil {
+					bvs = append(bvs, c05Var{name: "path:" + bk, tv: t, arg: "$.b"})
+				}
+			}
+			for _, bv := range bvs {
+				c05Combo(c, a, b, c05Var{name: "f64", tv: atv}, bv, "round8/small-floats", nil)
+			}
+		}
+	}
+}
+
+// needles written as literals that END in an escaped quote
+func r8NeedlesEndingInAQuote(c *Ctx) {
+	d := tvMap("str", [][2]any{kv("s", tvStr(`say "hi"`)), kv("t", tvStr(`x"`)), kv("u", tvStr(`""`)), kv("v", tvStr(`plain`))})
+	for _, recv := range []string{"s", "t", "u", "v"} {
+		for _, q := range []string{`Contains("\"")`, `NotContains("\"")`, `Suffix("hi\"")`, `Suffix("\"")`, `Prefix("x\"")`, `NotSuffix("i\"")`, `NotPrefix("\"")`, `ReplaceAll("\"","_")`, `ReplaceAll("i\"","I")`, `Contains("\"\"")`,
+			`Equal("x\"")`, `Equal("\"\"")`, `AnyOf("a","x\"")`, `ReplaceAll("_","\"")`, `Contains("\"h")`, `Prefix("say \"")`} {
+			c.Do(Case{Q: "$." + recv + "." + q, D: d, Cls: "round8/needles-ending-in-a-quote", InDomain: true})
+		}
+	}
+}
+
+// a literal that holds an escaped backslash in front of a letter that has an escape of its own: every fresh parse of the text is the
+// same operation (printed form, answer)
+func r8FreshParsesOfEscapedBackslashes(c *Ctx) {
+	d := tvMap("str", [][2]any{kv("s", tvStr("C:\\temp\\new")), kv("t", tvStr("C:\temp"))})
+	data := buildAny(d)
+	for _, q := range []string{`$.s.Equal("C:\\temp\\new")`, `$.t.Contains("\\t")`, `$.s.ReplaceAll("\\n","/n")`, `$.t.Suffix("\\temp")`, `$.s.Contains("\\\\t")`, `$.t.Equal("C:\\temp")`} {
+		c.Do(Case{Q: q, D: d, Cls: "round8/fresh-parses-of-escaped-backslashes", InDomain: false})
+		var first string
+		for i := 0; i < 80; i++ {
+			op, err := mpath.ParseString(q)
+			if err != nil || op == nil {
+				break
+			}
+			o := runOp(op, data)
+			now := op.Sprint(0) + " => " + o.Class + " " + o.Logical
+			if i == 0 {
+				first = now
+			} else if now != first {
+				c.addViolation(Violation{Kind: "nondeterminism", Query: q, QueryHex: hx(q), Data: d, Expected: trunc(first, 300), Got: trunc(now, 300), Cls: "round8/fresh-parses-of-escaped-backslashes",
+					Why: "a freshly parsed copy of the query prints or answers differently from an earlier freshly parsed copy (parse " + jsonInt(i+1) + ")", Key: "nondet:fresh-parse"})
+				break
+			}
+		}
 	}
 }
